@@ -244,8 +244,13 @@ class MapToMolecule(Processor):
             # set the resid of the new-molecule in case we don't start with 1
             nx.set_node_attributes(new_mol, resid_dict[start_node], "resid")
 
-            # we store the block together with the residue node
-            meta_molecule.nodes[start_node]["graph"] = new_mol.copy()
+            # we store the block together with the residue node; as for all
+            # other residues the attributes of the residue are propagated
+            correspondence = {node: node for node in new_mol.nodes}
+            meta_molecule.nodes[start_node]["graph"] = _correspondence_to_residue(meta_molecule,
+                                                                                  new_mol,
+                                                                                  correspondence,
+                                                                                  start_node)
 
         # now we loop over the rest of the nodes
         for node in node_keys[1:]:
